@@ -2,6 +2,7 @@ package functions
 
 import (
 	"fmt"
+	"math"
 
 	"diagonal.works/b6"
 	"diagonal.works/b6/api"
@@ -12,6 +13,9 @@ import (
 
 // Return a point at the given latitude and longitude, specified in degrees.
 func ll(context *api.Context, lat float64, lng float64) (b6.Geometry, error) {
+	if math.IsNaN(lat) || math.IsInf(lat, 0) || math.IsNaN(lng) || math.IsInf(lng, 0) {
+		return nil, fmt.Errorf("expected a finite latitude and longitude, found %f, %f", lat, lng)
+	}
 	return b6.GeometryFromLatLng(s2.LatLngFromDegrees(lat, lng)), nil
 }
 
@@ -123,6 +127,9 @@ func rectanglePolygon(context *api.Context, a b6.Geometry, b b6.Geometry) (b6.Ar
 
 // Return a polygon approximating a spherical cap with the given center and radius in meters.
 func capPolygon(context *api.Context, center b6.Geometry, radius float64) (b6.Area, error) {
+	if math.IsNaN(radius) || math.IsInf(radius, 0) {
+		return nil, fmt.Errorf("expected a finite radius, found %f", radius)
+	}
 	return b6.AreaFromS2Loop(s2.RegularLoop(center.Point(), b6.MetersToAngle(radius), 128)), nil
 }
 
@@ -163,6 +170,9 @@ func projectEdgesOntoPolylines(loop *s2.Loop, polylines []*s2.Polyline, threshol
 // Return an area formed by projecting the edges of the given polygon onto the paths present in the world matching the given query.
 // Paths beyond the given threshold in meters are ignored.
 func snapAreaEdges(context *api.Context, area b6.Area, query b6.Query, threshold float64) (b6.Area, error) {
+	if math.IsNaN(threshold) || math.IsInf(threshold, 0) {
+		return nil, fmt.Errorf("expected a finite threshold, found %f", threshold)
+	}
 	thresholdAngle := b6.MetersToAngle(threshold)
 	snapped := make([]*s2.Polygon, 0, area.Len())
 	for i := 0; i < area.Len(); i++ {
